@@ -114,10 +114,19 @@ fn plan_c13(o: &Opts) -> Vec<GroupSpec> {
          }
       }
       let base = format!("C13-s{}-{}", o.seed, i - 1);
-      let mut members =
-         vec![MemberSpec { prog: prog.clone(), opts: PrintOpts::plain(Kind::Ascent), meta: meta(&base, "ser", Kind::Ascent, true) }];
+      // every third program writes the default provider out (`#[ds(ascent::rel)]`), which must not change anything
+      let opts_of = |kind: Kind| {
+         let mut op = PrintOpts::plain(kind);
+         op.explicit_default_ds = i % 3 == 0;
+         op
+      };
+      let mut m0 = meta(&base, "ser", Kind::Ascent, true);
+      if i % 3 == 0 {
+         m0.labels.push("default_provider_written_out".into());
+      }
+      let mut members = vec![MemberSpec { prog: prog.clone(), opts: opts_of(Kind::Ascent), meta: m0 }];
       if gen::par_rejects(&prog).is_none() && i % 2 == 0 {
-         members.push(MemberSpec { prog: prog.clone(), opts: PrintOpts::plain(Kind::AscentPar), meta: meta(&base, "par", Kind::AscentPar, false) });
+         members.push(MemberSpec { prog: prog.clone(), opts: opts_of(Kind::AscentPar), meta: meta(&base, "par", Kind::AscentPar, false) });
       }
       out.push(GroupSpec { members });
    }
